@@ -50,8 +50,22 @@ func genHostileString(t *rapid.T) string {
 
 // hostileLiterals replaces string literals (and list elements) by layout-sensitive ones.
 func hostileLiterals(t *rapid.T, tree *m.Node, p int) {
+	// the text handed to a version / date operator decides whether the call succeeds - and the
+	// generator relies on it (a deliberately failing operand of an and/or must stay failing, or the
+	// program leaves the domain "and/or operands are boolean or always failing"): those literals stay
+	keep := map[*m.Node]bool{}
 	tree.Walk(func(x *m.Node) {
-		if x.Kind != m.KConst || x.Name != "" {
+		if x.Kind == m.KOp {
+			switch m.Aliases[x.Name] {
+			case "version", "date", "datetime", "t_time", "td_time", "td_date":
+				for _, k := range x.Kids {
+					keep[k] = true
+				}
+			}
+		}
+	})
+	tree.Walk(func(x *m.Node) {
+		if x.Kind != m.KConst || x.Name != "" || keep[x] {
 			return
 		}
 		switch v := x.Val.(type) {
@@ -271,6 +285,21 @@ func checkC13(c C13Case, r *Rec) *Violation {
 			o1 := Safe(func() (eval.Value, error) { return e.Eval(f1.Ctx()) })
 			oo2 := Safe(func() (eval.Value, error) { return e2.Eval(f2.Ctx()) })
 			if !SameOutcome(o1, oo2) {
+				// one documented latitude: with FastEvaluation a two-leaf operator takes both leaves before it
+				// is applied, so an ill-typed and/or whose first leaf decides fails there and not in the
+				// recompiled (unoptimized) program. Accepted only if the reference says exactly that.
+				if mask&MaskFast != 0 {
+					if dt, err := m.ReadDump(d); err == nil {
+						rf := &m.Env{Vars: vars, Fail: u.Fail(), Custom: customModel(), Fast: true}
+						rn := &m.Env{Vars: vars, Fail: u.Fail(), Custom: customModel()}
+						fv, ferr := rf.Eval(dt)
+						nv, nerr := rn.Eval(dt)
+						if ferr != nil && nerr == nil && Agrees(o1, fv, ferr) && Agrees(oo2, nv, nerr) {
+							r.Class("fast-path-takes-both-leaves")
+							continue
+						}
+					}
+				}
 				return Violf("C13: the recompiled dump computes something else\n%s\nbinding=%v\noriginal=%v\nrecompiled=%v", where(), vars, o1, oo2)
 			}
 		}
